@@ -226,7 +226,10 @@ class _CFIProcedureTracker:
                         directive == ".cfi_endproc"
                         and procedure_start is not None
                     ):
-                        procedure_end = (idx, offset)
+                        # IntervalTree intervals are half-open, but code
+                        # inserted at the offset of the .cfi_endproc goes
+                        # before it and so is still in the procedure.
+                        procedure_end = (idx, offset + 1)
                         self._tree.addi(procedure_start, procedure_end)
 
     def in_procedure(self, block_idx: int, offset: int) -> bool:
